@@ -582,7 +582,8 @@ def B3(inp, k, mid):
     return Res(cl, nontrivial=True, obs=lambda: dict(puts=show(xs), mid=mid, out=show(allout)))
 
 
-_B4_POOL = (0, 1, 8, 9, 16, 64, 'a', 'zz', (1, 2), frozenset({1}), frozenset({2}), frozenset({3}), frozenset({9}), frozenset({2, 3}))     # frozensets: '<' is only a partial order
+_B4_POOL = (0, 1, 8, 9, 16, 64, 'a', 'zz', (1, 2), frozenset({1}), frozenset({2}), frozenset({3}), frozenset({9}), frozenset({2, 3}),
+            frozenset([32, 3, 11]), frozenset([32, 2]))     # frozensets: '<' is only a partial order; the last two list their members in another order after a pickle round trip (repr differs)
 
 
 @obligation('B4', props=('C15', 'C01', 'C09'), quick=[dict(k=2), dict(k=3)], stubs=('none',),
@@ -599,7 +600,7 @@ def B4(inp, k):
         idx.append(j)
     elems = set(_B4_POOL[j] for j in idx)
     hist = bt.ReplSet()
-    universe = list(range(200)) + ['a', 'zz', 'q', (1, 2), (3, 4), frozenset({1}), frozenset({2}), frozenset({3}), frozenset({9}), frozenset({2, 3}), frozenset({7})]
+    universe = list(range(200)) + ['a', 'zz', 'q', (1, 2), (3, 4), frozenset({1}), frozenset({2}), frozenset({3}), frozenset({9}), frozenset({2, 3}), frozenset({7}), frozenset([32, 3, 11]), frozenset([32, 2])]
     for x in universe:
         hist.add(x, _doApply=True)
     for x in universe:
